@@ -128,8 +128,10 @@ def reference(desc, role, seq):
         # - the one given, else the translation of the sequence the specification was initialised on,
         # which here is the evaluated sequence itself; with a start-codon policy a first codon that is a
         # start codon of the table reads as M.  Table lookups straight from Biopython's CodonTable.
-        if kw.get("start_codon") is not None and sub[:3] in t.start_codons:
-            aas[0] = "M"
+        pol = kw.get("start_codon")
+        declared = [] if pol in (None, "keep") else (list(pol) if isinstance(pol, (list, tuple)) else [pol])
+        if pol is not None and (sub[:3] in t.start_codons or sub[:3] in declared):
+            aas[0] = "M"     # a start codon of the table, or one the user declared as such
         want = kw.get("translation")
         if want is None:
             return Fraction(0), [], True
